@@ -546,6 +546,13 @@ def run_shard(shard, tier, seed, acc):
             gs = spaces.path_by_size(1, spaces.LEAVES2) + spaces.path_by_size(2, spaces.LEAVES2)[(seed % 24)::24]
         else:
             gs = spaces.path_by_size(1, spaces.LEAVES2) + spaces.path_by_size(2, spaces.LEAVES2)[(seed % 6)::6]
+        # + formulas in which two eventualities promise the same formula (p U q with F q, p U q with
+        # not p U q): bookkeeping per promise instead of per eventuality depends on the closure order
+        P_, Q_ = spaces.P, spaces.Q
+        U1, U2, U3 = ('U', P_, Q_), ('F', Q_), ('U', ('not', P_), Q_)
+        gs = gs + [('imp', U1, U2), ('imp', U2, U1), ('or', U1, U3), ('and', U1, U2)] + \
+            ([] if tier == 'quick' else [('imp', U3, U1), ('or', ('not', U1), U2, U3), ('U', U1, U2),
+                                         ('G', ('imp', U2, U1))])
         for k in reps:
             for g in gs:
                 if deadline_passed():
